@@ -180,7 +180,7 @@ def interactive_world(r):
     h, w = r.choice([(1, 4), (1, 5), (2, 4), (3, 3), (3, 4), (4, 4), (2, 5)])
     col = r.choice(gen.COLORS[1:])
     pool = [gen.FLOOR] * 5 + [(T['Door'], 1, col, None), (T['Door'], 2, col, None), (T['Door'], 0, col, None), (T['Key'], 0, col, None),
-                              (T['Box'], 0, 0, (T['Key'], 0, col, None)), (T['Box'], 0, 0, gen.FLOOR), gen.WALL, (T['MovingObstacle'], 0, 0, None),
+                              (T['Box'], 0, 0, (T['Key'], 0, col, None)), (T['Box'], 0, 0, gen.FLOOR), (T['Box'], 0, 0, (T['Door'], r.choice([1, 2]), col, None)), gen.WALL, (T['MovingObstacle'], 0, 0, None),
                               (T['Telepod'], 0, col, None), (T['Exit'], 0, 0, None), (T['Exit'], 0, r.choice(gen.COLORS[1:]), None), (T['Beacon'], 0, r.choice(gen.COLORS[1:]), None)]
     g = tuple(tuple(r.choice(pool) for _ in range(w)) for _ in range(h))
     free = [(y, x) for y in range(h) for x in range(w) if g[y][x][0] in (T['Floor'], T['Exit'], T['Telepod']) or g[y][x] == (T['Door'], 0, col, None)]
@@ -214,6 +214,18 @@ def run_histories(ctx, n, step_oracle, length=(3, 10)):
         hist = []
         for _k in range(r.randint(*length)):
             act = r.choice([0, 0, 0, 0, 6, 6, 6, 7, 7, 1, 2, 3, 4, 5])
+            if r.random() < 0.12:
+                # between two steps the world is edited through the public Grid interface (two cells swapped, a cell assigned): whatever
+                # the library remembers about a grid must follow
+                from gym_gridverse.geometry import Position
+                gh, gw = s.grid.shape.height, s.grid.shape.width
+                pa, pb = (r.randrange(gh), r.randrange(gw)), (r.randrange(gh), r.randrange(gw))
+                if s.agent.position.yx not in (pa, pb):
+                    if r.random() < 0.6:
+                        s.grid.swap(Position(*pa), Position(*pb))
+                    else:
+                        s.grid[Position(*pa)] = wire.mkobj(r.choice([gen.FLOOR, gen.WALL, (gen.TY['Telepod'], 0, r.choice(gen.COLORS[1:]), None)]))
+                    hist.append('grid edit')
             before = wire.cstate(s)
             s2 = pickle.loads(pickle.dumps(s))
             with impl.Journal(r.randrange(1 << 30)) as j:
